@@ -47,6 +47,15 @@ def updater(pio, updates, fmt):
             ts = ToastSampler(pio, _region_sampler(y0, y1, x0, x1, v), False)
             ts.visit_callback(Pos(*pos), create_single_tile(Pos(*pos)))
             continue
+        if value == "abort":
+            # an update that fails in its body (the caller's processing of this tile raises inside the `with` block)
+            # and is given up: it contributes nothing, and must take nothing away from the other updaters
+            try:
+                with pio.update_image(Pos(*pos), masked_mode=ImageMode.F32, default="masked", format=fmt) as basis:
+                    raise stages.InjectedFault("injected failure in the body of an update of %r" % (pos,))
+            except stages.InjectedFault:
+                pass
+            continue
         if value is None:
             # a contribution that defines no pixel at all (an input that is undefined over this tile)
             src = Image.from_array(np.full((y1 - y0, x1 - x0), np.nan, dtype=np.float32))
@@ -74,6 +83,9 @@ def serial_results(procs):
             if idx[k] < len(s):
                 pos, (y0, y1, x0, x1), value = s[idx[k]]
                 t2 = {p: t.copy() for p, t in tiles.items()}
+                if value == "abort":
+                    rec(idx[:k] + (idx[k] + 1,) + idx[k + 1 :], t2)
+                    continue
                 t = t2.setdefault(tuple(pos), np.full((256, 256), np.nan, dtype=np.float32))
                 if isinstance(value, str):
                     value = float(value.split(":")[1])
@@ -168,7 +180,7 @@ class UpdateHarness(Harness):
             missing = []
             for ups in self._all():
                 for pos, (y0, y1, x0, x1), value in ups:
-                    if value is None:
+                    if value is None or value == "abort":
                         continue
                     if isinstance(value, str):
                         value = float(value.split(":")[1])
@@ -214,6 +226,13 @@ def configs(tier):
     cfgs += [
         UpdateHarness("3-one-tile", [[(T0, R["left"], 1.0)], [(T0, R["right"], 2.0)], [(T0, R["top"], 3.0)]]),
         UpdateHarness("2x2-sequential", [[(T0, R["left"], 1.0), (T0, R["px"], 5.0)], [(T0, R["right"], 2.0), (T0, R["mid"], 6.0)]]),
+    ]
+    # an update given up half-way (its body raises) next to successful ones, on a tile that does not exist yet and on
+    # one that does: the others' contributions stay
+    cfgs += [
+        UpdateHarness("2-one-aborts", [[(T0, R["left"], 1.0)], [(T0, R["right"], "abort")]]),
+        UpdateHarness("3-one-aborts", [[(T0, R["left"], 1.0)], [(T0, R["mid"], "abort")], [(T0, R["top"], 3.0)]]),
+        UpdateHarness("2-abort-then-update", [[(T1, R["left"], "abort"), (T1, R["px"], 5.0)], [(T1, R["right"], 2.0)]], default_format="fits"),
     ]
     # the top-level process updates the tile itself while its children do (every updater, whatever its role, must
     # use one lock discipline)
